@@ -21,3 +21,119 @@ def model_check(ctx):
             ctx.mc('batcher', 'MC_Batcher', cfg + '.cfg', expect_violation=expect, timeout=300)
         else:
             ctx.mc('batcher', 'MC_Batcher', cfg + '.cfg', timeout=2400, require_actions=ACTIONS)
+
+
+# ---------------------------------------------------------------------------------------------
+# implementation conformance (code -> spec): recorded executions against Batcher.tla
+import json as _json
+import os as _os
+import re as _re
+import shutil as _shutil
+from concurrent.futures import ThreadPoolExecutor as _TPE
+
+UNIT = 500      # ms per model tick (scenario times are multiples of 0.5 s)
+
+
+def _prep(sc, r):
+    if sc.get('form', 'class') != 'class' or sc.get('setmax') or sc.get('raise_at') or sc.get('loops'):
+        return None
+    if any(c.get('chain') or c.get('tmo') is not None or c.get('cancel_iters') is not None for c in sc['calls']):
+        return None
+    behav = sc.get('behav', {})
+    if any(b in ('dup', 'unknown') for b in behav.values()):
+        return None
+    o = sc['opts']
+    for k in ('batch_timeout', 'retention_timeout'):
+        if (o.get(k, 0) * 1000) % UNIT:
+            return None
+    calls = sorted(sc['calls'], key=lambda c: c['i'])
+    if [c['i'] for c in calls] != list(range(1, len(calls) + 1)) or len(calls) > 6:
+        return None
+    ev = []
+    keyof = {}
+    for e in r['events']:
+        if e['e'] in ('Tick', 'Config', 'End', 'Quiescent', 'SetMax'):
+            continue
+        if 'st' not in e or e['t'] % UNIT:
+            return None
+        d = {k: v for k, v in e.items() if k != 'n'}
+        d['t'] = e['t'] // UNIT
+        if e['e'] == 'Call':
+            keyof[e['i']] = e['key']
+        ev.append(d)
+    if len(keyof) != len(calls):
+        return None
+    # calls must arrive in id order (the model's symmetry reduction)
+    order = [e['i'] for e in ev if e['e'] == 'Call']
+    if order != sorted(order):
+        return None
+    keys = sorted(set(keyof.values()))
+    return {'events': ev, 'keyof': keyof, 'keys': keys,
+            'consts': {'MaxB': o['max_batch_size'], 'MaxC': o['max_concurrent_batches'],
+                       'BT': int(o['batch_timeout'] * 1000) // UNIT, 'RT': int(o.get('retention_timeout', 0) * 1000) // UNIT,
+                       'MaxTime': max(e['t'] for e in ev),     # the model's horizon must cover the whole recorded run
+                       'Cancels': any(e['e'] == 'Cancel' for e in ev)},
+            'behav': {k: behav.get(k, 'value') for k in keys}}
+
+
+def _one(p):
+    from harness import tlc
+    c = p['consts']
+    keyof = ' @@ '.join('(%d :> "%s")' % (i, k) for i, k in sorted(p['keyof'].items()))
+    behav = ' @@ '.join('("%s" :> "%s")' % (k, b) for k, b in sorted(p['behav'].items()))
+    mod = ('---- MODULE MC_BatcherConform ----\nEXTENDS BatcherConform\nCCalls == 1..%d\nCKeyOf == %s\nCBehav == %s\n====\n'
+           % (len(p['keyof']), keyof, behav))
+    cfg = ('INIT CInit\nNEXT CNext\nCONSTANTS\n Calls <- CCalls\n KeyOf <- CKeyOf\n MaxB = %d\n MaxC = %d\n BT = %d\n RT = %d\n MaxTime = %d\n'
+           ' Behav <- CBehav\n Cancels = %s\n Raises = FALSE\n ShieldShared = TRUE\nCONSTRAINT Reached\nCONSTRAINT NotYetAccepted\nCHECK_DEADLOCK FALSE\n'
+           % (c['MaxB'], c['MaxC'], c['BT'], c['RT'], c['MaxTime'], 'TRUE' if c['Cancels'] else 'FALSE'))
+    work = tlc.scratch('bconf-')
+    try:
+        tf = _os.path.join(work, 'trace.json')
+        with open(tf, 'w') as f:
+            _json.dump(p['events'], f)
+        out, dt, rc = tlc.run_tlc('batcher', 'MC_BatcherConform', 'MC_BatcherConform.cfg', workers=1,
+                                  timeout=int(_os.environ.get('CONF_TIMEOUT', '90')), env={'TRACE_FILE': tf},
+                                  cfg_text=cfg, extra_files={'MC_BatcherConform.tla': mod},
+                                  jvm=['-Dtlc2.tool.queue.IStateQueue=StateDeque'], heap='1g')
+    finally:
+        _shutil.rmtree(work, ignore_errors=True)
+    r = tlc.parse_mc(out)
+    best = 1
+    for m in _re.finditer(r'<< ?"REACHED", 1, (\d+), (\d+) ?>>', _re.sub(r'\s+', ' ', out)):
+        best = max(best, int(m.group(1)))
+    err = r['error']
+    return best, len(p['events']) + 1, err, r['distinct'], r['generated'], (out[-1500:] if err and err != 'timeout' else '')
+
+
+def conformance(ctx, executed, limit=40):
+    todo = []
+    for sc, r, v in executed:
+        if r.get('status') != 'ok' or any(x is not None for x in v.values()):
+            continue
+        p = _prep(sc, r)
+        if p is not None and len(p['events']) <= 60:
+            todo.append(p)
+    todo.sort(key=lambda p: len(p['events']))
+    todo = todo[:limit]
+    acc = und = 0
+    drift = []
+    with _TPE(8) as ex:
+        for p, (best, n, err, ds, gen, tail) in zip(todo, ex.map(_one, todo)):
+            ctx.cov['states'] += ds
+            ctx.cov['transitions'] += gen
+            if best >= n:
+                acc += 1
+            elif err == 'timeout':
+                und += 1
+            elif err:
+                ctx.notes.append('batcher conformance: TLC error: %s' % (tail[-300:],))
+                und += 1
+            else:
+                drift.append({'matched_prefix': best - 1, 'of': n - 1, 'first_unexplained': p['events'][best - 1]})
+    ctx.cov['conformance'] = {'traces_checked': len(todo), 'accepted': acc, 'drift': len(drift), 'undecided': und,
+                              'drift_samples': drift[:3],
+                              'what': 'recorded executions (class form) validated against the timed model Batcher.tla with silent assembler / '
+                                      'clean-up / clock steps; projected state (queue length, retention-cache keys, free semaphore slots) '
+                                      'compared at every observable event'}
+    ctx.cov['conformance_divergences'] = len(drift)
+    return len(todo), acc, drift
